@@ -139,7 +139,7 @@ def compileBetween (e lo hi : CExpr) : CM CExpr :=
 def compileCall (fname : String) (args : List CExpr) (handle : Nat) : CM (CExpr × Nat) :=
   if fname == "coalesce" then
     match args with
-    | [] => .error (.py "IndexError")
+    | [] => .error (.compile "coalesce() function requires at least one argument")
     | a :: _ =>
       if args.all (fun x => x.ty == a.ty) then .ok (.coalesce args a.ty, handle)
       else .error (.compile "coalesce() function arguments must have uniform type")
@@ -173,6 +173,11 @@ def bindParam (ctx : Ctx) (name : Option String) (pos : Nat) : CM Value :=
      | some v => .ok v
      | none => .error (.py "IndexError"))
   | _, _ => .error (.py "TypeError")
+
+/-- `issubclass(dtype, collections.abc.Container)` for the datatypes that can be announced -/
+def isContainerTy : Ty → Bool
+  | .int | .dec | .date | .bool | .interval | .asterisk | .any | .obj | .none => false
+  | _ => true
 
 /-- result of compiling a nested SELECT -/
 inductive SubResult
@@ -243,7 +248,9 @@ def compileExpr (ctx : Ctx) (tbl : TableDef) (subq : Select → CM SubResult) :
         | _ =>
           match compileExpr ctx tbl subq r h1 with
           | .error x => .error x
-          | .ok (cr, h2) => .ok (.binop op cl cr .bool, h2)
+          | .ok (cr, h2) =>
+            if isContainerTy cr.ty || cr.ty == .obj || cr.ty == .none then .ok (.binop op cl cr .bool, h2)
+            else .error (.compile "operator in not supported")
       else
         match compileExpr ctx tbl subq r h1 with
         | .error x => .error x
@@ -531,7 +538,6 @@ def compileSelect (ctx : Ctx) : Nat → TableDef → Select → CM Compiled
             let dateCheck : CM Unit :=
               match open_, close with
               | some o, .on d => if d.lt o then .error (.compile "CLOSE date must follow OPEN date") else .ok ()
-              | some _, .flag => .error (.py "TypeError")
               | _, _ => .ok ()
             match dateCheck with
             | .error x => .error x
